@@ -263,6 +263,15 @@ def encView (md : Method) : Json :=
       ("bodyImports", Json.arr (v.imports.map encImp).toArray)]),
       ("roundtrip", Json.arr ((bodyOf v).map encStmt).toArray), ("body", Json.arr (md.body.map encStmt).toArray)]
 
+/-- the hypothesis `ClientInv` of `plugin_chain_preserves_methods`, decided on a concrete module:
+    `pre ++ [funcDef, classDef]`, no class and at least one import statement in `pre` -/
+def clientInvB (m : Module) : Bool :=
+  match m.body.reverse with
+  | .classDef _ :: .funcDef _ :: preRev =>
+    preRev.all (fun t => t.classDef?.isNone) &&
+    preRev.any (fun t => match t with | .simple (.importFrom _) => true | .simple (.import_ _) => true | _ => false)
+  | _ => false
+
 open Ariadne.ClientSem in
 def handle (j : Json) : Except String Json := do
   let op ← Wire.fieldStr j "op"
@@ -282,11 +291,16 @@ def handle (j : Json) : Except String Json := do
         | some c => c.methods.map encView
         | none => []
       | none => []
+    let invIn : Json :=
+      match ps.trace.reverse.find? (fun t => t.1.hook == "generate_client_module") with
+      | some (_, .module mi, _) => Json.bool (clientInvB mi)
+      | _ => .null
     let pkgChecks : Json :=
       match ps.clientModule? with
       | some m =>
         let pkg : Pkg := { client := m, ops := ps.opsFile? }
-        Json.mkObj [("wellScoped", wellScopedB pkg), ("annScoped", annScopedB m),
+        Json.mkObj [("wellScoped", wellScopedB pkg), ("annScoped", annScopedB m), ("clientInvIn", invIn),
+          ("clientInvOut", clientInvB m),
           ("unresolved", Json.arr ((unresolvedNames pkg).map Json.str).toArray)]
       | none => .null
     pure (Json.mkObj [("trace", Json.arr trace.toArray), ("error", jopt err), ("ops", encOps ps.opsFile?),
